@@ -8,7 +8,7 @@ use zeromq::SocketEvent;
 use zvcore::evidence::{Check, Tier};
 use zvcore::refcodec as rc;
 
-const BEHAVIOURS: [&str; 5] = ["goes-silent", "closes", "switches-to-garbage", "resets", "sends-a-malformed-READY-and-closes"];
+const BEHAVIOURS: [&str; 7] = ["goes-silent", "closes", "switches-to-garbage", "resets", "sends-a-malformed-READY-and-closes", "stalls-and-closes-after-the-monitor-was-replaced", "stalls-and-sends-garbage-after-the-monitor-was-replaced"];
 
 #[derive(Clone, Debug)]
 struct Case {
@@ -265,7 +265,7 @@ async fn run_case(c: &Case) -> Vec<(String, String)> {
             Ok(mut s) => {
                 let _ = s.write_all(&hs[..c.offset]).await;
                 match c.behaviour {
-                    0 => bads.push(s),
+                    0 | 5 | 6 => bads.push(s),
                     1 => drop(s),
                     _ => {
                         let _ = s.write_all(&[0xAA; 96]).await;
@@ -320,7 +320,31 @@ async fn run_case(c: &Case) -> Vec<(String, String)> {
     // monitor: accept failures for closing / garbage clients, never an Accepted for a bad client
     // a client that closes mid-handshake must be reported; garbage may also merely stall the handshake
     // (e.g. a flags byte announcing a long frame that never arrives), which is not a failure
-    let want_failed = if c.behaviour == 1 || c.behaviour == 4 { c.bad_clients } else { 0 };
+    if (c.behaviour == 5 || c.behaviour == 6) && viol.is_empty() {
+        // the handshakes of the stalled clients are under way (the library's greeting has reached each of them); the
+        // application now installs a NEW monitor; only then do the stalled clients fail their handshakes. "Reported to
+        // an installed monitor": the one installed when the failure happens.
+        for s in bads.iter_mut() {
+            let mut acc = Vec::new();
+            let _ = s.read_until(&mut acc, e4::HORIZON, |b| b.len() >= 64).await;
+            if acc.len() < 64 {
+                viol.push(("machinery/staller-got-no-greeting".into(), format!("{}: a stalled client never received the library's greeting", what)));
+            }
+        }
+        monitor = sock.monitor();
+        mon = Mon::default();
+        mon.accepted = goods.len();
+        for mut s in bads.drain(..) {
+            if c.behaviour == 6 {
+                // bytes that cannot continue a handshake at any offset: an over-long command frame header after the
+                // greeting, a bad signature before it
+                let _ = s.write_all(&[0xAA; 96]).await;
+                let _ = s.wait_closed(Duration::from_millis(300)).await;
+            }
+            drop(s);
+        }
+    }
+    let want_failed = if matches!(c.behaviour, 1 | 4 | 5 | 6) { c.bad_clients } else { 0 };
     let t0 = Instant::now();
     loop {
         pump(&mut monitor, &mut mon);
@@ -390,6 +414,18 @@ fn all_cases(tier: Tier) -> Vec<Case> {
         for tr in [Tr::Tcp4, Tr::Ipc] {
             for variant in 0..8usize {
                 v.push(Case { ty, tr, offset: variant, behaviour: 4, bad_clients: 1, extra_goods: 0 });
+            }
+        }
+    }
+    // the monitor is replaced while the bad clients are stalled in their handshakes; then they fail
+    for ty in ALL_TYPES {
+        for tr in [Tr::Tcp4, Tr::Ipc] {
+            let n = rc::handshake(ty.peer_type(), None).len();
+            let offsets: Vec<usize> = if tier == Tier::Thorough { (0..n).step_by(3).collect() } else { vec![0, 10, 64, 70, n - 1] };
+            for offset in offsets {
+                for behaviour in [5usize, 6] {
+                    v.push(Case { ty, tr, offset, behaviour, bad_clients: if offset == 10 { 3 } else { 1 }, extra_goods: 0 });
+                }
             }
         }
     }
@@ -544,7 +580,7 @@ pub fn run(tier: Tier, replay: Option<String>) -> i32 {
     ck.cov("evaluations", done);
     ck.cov("distinct_nontrivial", cases.iter().filter(|c| c.offset > 0 || c.behaviour != 0).count() as u64);
     ck.cov("exhaustive", skipped == 0);
-    ck.cov("rule", format!("for each of the 9 bound socket types over {}: a raw client that sends the first k bytes of a valid greeting+READY for EVERY k in 0..N-1 and then {{goes silent, closes, switches to 96 bytes of garbage}} (and, at the structurally interesting offsets over TCP, aborts with a reset from a synchronous client - on a current-thread runtime, where the reset is certain to precede the listener's look at the connection, and on a multi-thread one), one such client (three at every 16th offset{}), with a well-behaved raw client connecting before, while and after; plus a scale family (PULL/PUB/ROUTER/REP over TCP v4 and IPC: 1 / 8 / 64 (thorough 256) silent clients stalled at offsets 0, 10, 64, 70, then 20 (thorough 100) further well-behaved clients one after the other, each of which must complete its handshake; and 200 (thorough 600) clients that close or switch to garbage at offsets 10 / 70 followed by well-behaved ones - not exhaustive in the counts): {} cases, all distinct; non-trivial = the bad client sent at least one byte or misbehaved actively. Oracle (monotone conditions, {} s horizon): the client connecting meanwhile completes its handshake and a message exchange that proves its connection works in the direction(s) the type supports (for round-robin senders: one send per well-behaved client reaches every one of them, so a half-handshaken connection in the rotation is detected); the connection established before still works; the monitor reports AcceptFailed for every client that closes mid-handshake or after a complete but malformed READY (8 variants of inconsistent inner lengths; garbage may merely stall a handshake, which is not a failure) and never more Accepted events than completed handshakes; a client connecting afterwards works too.", match tier { Tier::Quick => "TCP v4 (TCP v6 and IPC at 8 structurally interesting offsets)", Tier::Thorough => "TCP v4, TCP v6 and IPC" }, if tier == Tier::Thorough { " — thorough: at every offset" } else { "" }, cases.len(), e4::HORIZON.as_secs()));
+    ck.cov("rule", format!("for each of the 9 bound socket types over {}: a raw client that sends the first k bytes of a valid greeting+READY for EVERY k in 0..N-1 and then {{goes silent, closes, switches to 96 bytes of garbage}} (and, at the structurally interesting offsets over TCP, aborts with a reset from a synchronous client - on a current-thread runtime, where the reset is certain to precede the listener's look at the connection, and on a multi-thread one), one such client (three at every 16th offset{}), with a well-behaved raw client connecting before, while and after; plus a scale family (PULL/PUB/ROUTER/REP over TCP v4 and IPC: 1 / 8 / 64 (thorough 256) silent clients stalled at offsets 0, 10, 64, 70, then 20 (thorough 100) further well-behaved clients one after the other, each of which must complete its handshake; and 200 (thorough 600) clients that close or switch to garbage at offsets 10 / 70 followed by well-behaved ones - not exhaustive in the counts): {} cases, all distinct; non-trivial = the bad client sent at least one byte or misbehaved actively. Oracle (monotone conditions, {} s horizon): the client connecting meanwhile completes its handshake and a message exchange that proves its connection works in the direction(s) the type supports (for round-robin senders: one send per well-behaved client reaches every one of them, so a half-handshaken connection in the rotation is detected); the connection established before still works; the monitor reports AcceptFailed for every client that closes mid-handshake or after a complete but malformed READY (8 variants of inconsistent inner lengths; garbage may merely stall a handshake, which is not a failure) and never more Accepted events than completed handshakes; a client connecting afterwards works too. Monitor timing: in two further behaviours the application REPLACES its monitor while the bad clients are stalled in handshakes already under way (each has received the library's greeting), and only then do they close / send garbage: the new monitor must get the AcceptFailed reports and the later Accepted ones.", match tier { Tier::Quick => "TCP v4 (TCP v6 and IPC at 8 structurally interesting offsets)", Tier::Thorough => "TCP v4, TCP v6 and IPC" }, if tier == Tier::Thorough { " — thorough: at every offset" } else { "" }, cases.len(), e4::HORIZON.as_secs()));
     ck.sample(case_json(&cases[cases.len() / 2]));
     ck.sample(case_json(&cases[7]));
     ck.assume("OS schedules are not enumerated; 'never completes' is observed as 'not within the 5 s horizon' (correct code needs milliseconds)");
